@@ -22,11 +22,13 @@ var Clock *dsig.Clock
 // rand.Reader, but it can be replaced for testing.
 var RandReader = rand.Reader
 
-// xmlWriteSettings makes etree write carriage returns (and, in attribute values,
-// tabs and newlines) as character references. Written raw, an XML parser
-// normalizes them to "\n", so the value read back differs from the value written
-// and no longer matches what was canonicalized for signing.
-var xmlWriteSettings = etree.WriteSettings{CanonicalText: true, CanonicalAttrVal: true}
+// xmlWriteSettings makes etree write a carriage return in character data as a
+// character reference. Written raw, an XML parser normalizes it to "\n", so the
+// value read back differs from the value written and no longer matches what was
+// canonicalized for signing. Attribute values keep etree's default escaping:
+// the canonical attribute mode leaves ">" raw, and encoding/xml rejects a raw
+// "]]>" inside an attribute value.
+var xmlWriteSettings = etree.WriteSettings{CanonicalText: true}
 
 //nolint:unparam // This always receives 20, but we want the option to do more or less if needed.
 func randomBytes(n int) []byte {
